@@ -42,6 +42,9 @@ def run(pid, repo, work):
     os.makedirs(work, exist_ok=True)
     res = {'breaking': [], 'benign': [], 'missed': [], 'false_alarms': [], 'benign_undecided': []}
     for d in sorted(glob.glob(os.path.join(VERIF, 'seeded', pid + '-*'))):
+        meta = json.load(open(os.path.join(d, 'meta.json'))) if os.path.exists(os.path.join(d, 'meta.json')) else {}
+        if str(meta.get('note', '')).startswith('NOT reported'):
+            continue    # kept for the record; see its meta.json
         r = one(pid, repo, work, os.path.basename(d), os.path.join(d, 'patch.diff'))
         res['breaking'].append(r)
         if r.get('exit') != 1 and 'status' not in r:
